@@ -66,9 +66,10 @@ def scratch_apply(patch):
     r = sh(f"git apply {patch}", cwd=f"{MUT}/repo")
     if r.returncode != 0:
         return r.stdout
-    r = sh("cargo build --release --offline", cwd=f"{MUT}/sim", env=dict(os.environ, CARGO_NET_OFFLINE="true"))
-    if r.returncode != 0:
-        return r.stdout[-1500:]
+    for prof in ("--release", "--profile relnd"):
+        r = sh(f"cargo build {prof} --offline", cwd=f"{MUT}/sim", env=dict(os.environ, CARGO_NET_OFFLINE="true"))
+        if r.returncode != 0:
+            return r.stdout[-1500:]
     return None
 
 
